@@ -82,7 +82,7 @@ use std::iter::{Sum, Product};
 '''
 
 
-def _run_cargo(work, outdir, inventory, roots_filter=None):
+def _run_cargo(work, outdir, inventory, roots_filter=None, local=None, loop_bound=None):
     env = dict(os.environ)
     env.update({
         'CARGO_NET_OFFLINE': 'true',
@@ -100,21 +100,28 @@ def _run_cargo(work, outdir, inventory, roots_filter=None):
         env.pop('MIRSUM_INVENTORY', None)
     if roots_filter:
         env['MIRSUM_ROOTS'] = roots_filter
+    env.pop('MIRSUM_LOCAL', None)
+    env.pop('MIRSUM_LOOP_BOUND', None)
+    if local:
+        env['MIRSUM_LOCAL'] = local
+    if loop_bound:
+        env['MIRSUM_LOOP_BOUND'] = str(loop_bound)
     p = subprocess.run(['cargo', '+nightly', 'check', '--offline', '--lib', '--message-format=short', '-j', '16'],
                        cwd=os.path.join(work, 'harness'), env=env, capture_output=True, text=True)
     return p
 
 
-def extract(tag, harness_src, features=(), extra_deps='', inventory=False, use_cache=True):
+def extract(tag, harness_src, features=(), extra_deps='', inventory=False, use_cache=True, local=None, loop_bound=None):
     """Returns (Summaries, inventory-or-None, meta).  harness_src: Rust source, one wrapper fn per line."""
     os.makedirs(CACHE, exist_ok=True)
     rh = _repo_hash()
-    key = hashlib.sha256(('%s|%s|%s|%s|%s|%s' % (rh, _engine_hash(), harness_src, ','.join(features), extra_deps, inventory)).encode()).hexdigest()[:24]
+    key = hashlib.sha256(('%s|%s|%s|%s|%s|%s|%s|%s' % (rh, _engine_hash(), harness_src, ','.join(features), extra_deps, inventory, local, loop_bound)).encode()).hexdigest()[:24]
     cdir = os.path.join(CACHE, key)
     meta_path = os.path.join(cdir, 'meta.json')
     if use_cache and os.path.exists(meta_path) and os.environ.get('VERIF_NOCACHE') != '1':
         meta = json.load(open(meta_path))
         meta['cached'] = True
+        meta['cdir'] = cdir
         inv = json.load(open(os.path.join(cdir, 'inventory.json'))) if inventory else None
         return Summaries(os.path.join(cdir, 'summaries.json')), inv, meta
     t0 = time.time()
@@ -132,7 +139,7 @@ def extract(tag, harness_src, features=(), extra_deps='', inventory=False, use_c
         for attempt in range(6):
             with open(os.path.join(h, 'src', 'lib.rs'), 'w') as f:
                 f.write(LIB_HEAD + '\n'.join(lines) + '\n')
-            p = _run_cargo(work, outdir, inventory)
+            p = _run_cargo(work, outdir, inventory, local=local, loop_bound=loop_bound)
             if p.returncode == 0:
                 break
             err = p.stderr
@@ -164,6 +171,10 @@ def extract(tag, harness_src, features=(), extra_deps='', inventory=False, use_c
         shutil.copy(spath, os.path.join(tmpc, 'summaries.json'))
         if inventory:
             shutil.copy(os.path.join(outdir, 'inventory.json'), os.path.join(tmpc, 'inventory.json'))
+        if local:
+            if not os.path.exists(os.path.join(outdir, 'local.json')):
+                raise BuildError('driver produced no local summaries\n' + p.stderr[-3000:])
+            shutil.copy(os.path.join(outdir, 'local.json'), os.path.join(tmpc, 'local.json'))
         meta = {'repo_hash': rh, 'features': list(features), 'dropped': dropped, 'extract_s': round(time.time() - t0, 2), 'cached': False}
         json.dump(meta, open(os.path.join(tmpc, 'meta.json'), 'w'))
         shutil.rmtree(cdir, ignore_errors=True)
@@ -172,6 +183,7 @@ def extract(tag, harness_src, features=(), extra_deps='', inventory=False, use_c
         except OSError:
             shutil.rmtree(tmpc, ignore_errors=True)
         _prune()
+        meta['cdir'] = cdir
         inv = json.load(open(os.path.join(cdir, 'inventory.json'))) if inventory else None
         return Summaries(os.path.join(cdir, 'summaries.json')), inv, meta
     finally:
